@@ -25,3 +25,18 @@ func VNewClientOnConn(cfg *ClientConfig, conn net.Conn) *Client {
 func VHandlePacket(c *Client, pkt pkts.Packet) error { return c.handlePacket(pkt) }
 
 func VSetActive(c *Client) { c.state.Set(util.StateActive) }
+
+// VSetRegistered: the client knows topic name under the given ID (as after an accepted REGACK / SUBACK / REGISTER).
+func VSetRegistered(c *Client, name string, id uint16) { c.registeredTopics[name] = id }
+
+// VInstallHandler files a message handler for a filter (as a completed Subscribe does).
+func VInstallHandler(c *Client, filter string, cb MessageHandlerFunc) {
+	c.messageHandlers.store(split(filter), cb)
+}
+
+func vB2U(b bool) uint64 {
+	if b {
+		return 1
+	}
+	return 0
+}
